@@ -19,6 +19,9 @@ pub struct Bindings {
     pub atoms: HashMap<String, Vec<u8>>, // "sI", "psk0", "prologue", "name", ...
     pub lits: HashMap<String, Vec<u8>>,  // payload ids
     pub seed: u64,                       // random-source seed: draw k of endpoint ep = draw_bytes(seed, ep, k)
+    /// KEM oracle (hfs): "pub|ep|k", "encpk|ep|k", "ct|ep|k", "ss|ep|k", "dec|ep|<hex ct digest>" -> bytes recorded
+    /// from the KEM objects of the endpoints
+    pub kem: HashMap<String, Vec<u8>>,
 }
 
 /// The k-th draw (of `len` bytes) of endpoint `ep`'s deterministic random source.
@@ -221,6 +224,32 @@ impl<'a> Evaluator<'a> {
                 Ok(draw_bytes(self.b.seed, ep, ar.num(a[2])?, ar.num(a[3])? as usize))
             },
             "none" => Err("evaluating none".into()),
+            // ---- KEM oracle terms (hfs): bound to what the recorded KEM object produced
+            "kemsk" => Err("a KEM secret key has no byte value outside the library".into()),
+            "kempub" => {
+                let sk = ar.arr(a[1])?;
+                let key = format!("pub|{}|{}", ar.str(sk[1])?, ar.num(sk[2])?);
+                Ok(self.b.kem.get(&key).cloned().unwrap_or_else(|| junk_bytes(self.b.seed, &format!("unbound:{key}"), 1568)))
+            },
+            "kemct" | "kemss" => {
+                let pk = self.eval(a[1])?;
+                let ep = ar.str(a[2])?;
+                let k = ar.num(a[3])?;
+                let len = if tag == "kemct" { 1568 } else { 32 };
+                // the encapsulation must have been made to the key the specification says
+                match self.b.kem.get(&format!("encpk|{ep}|{k}")) {
+                    Some(p) if *p == pk => {},
+                    _ => return Ok(junk_bytes(self.b.seed, &format!("kem-mismatch:{tag}|{ep}|{k}"), len)),
+                }
+                let key = format!("{}|{ep}|{k}", if tag == "kemct" { "ct" } else { "ss" });
+                Ok(self.b.kem.get(&key).cloned().unwrap_or_else(|| junk_bytes(self.b.seed, &format!("unbound:{key}"), len)))
+            },
+            "kemrej" => {
+                let ct = self.eval(a[1])?;
+                let sk = ar.arr(a[2])?;
+                let key = format!("dec|{}|{}", ar.str(sk[1])?, hex::encode(prims::hash(HashAlg::Sha256, &[&ct])));
+                Ok(self.b.kem.get(&key).cloned().unwrap_or_else(|| junk_bytes(self.b.seed, &format!("unbound:{key}"), 32)))
+            },
             "pub" => {
                 let sk = self.eval(a[1])?;
                 prims::dh_pub(ps.dh, &sk).ok_or_else(|| "pub: unusable private key".to_string())
